@@ -3,7 +3,9 @@
    Properties/C05Tot.v. *)
 From Gots Require Import Base.Prelude Base.PacketLemmas Exec.ExecBase Exec.TotExec.
 From Gots Require Import Model.Packet Model.Create Model.AF Model.AFfn Model.Psi Model.Pat Model.Pmt Model.PmtDesc
-  Model.Pts Model.Pes Model.Ebp Model.Scte Model.ScteEnc Model.IO Model.PacketWriter Model.Bufio Model.Accumulator.
+  Model.Pts Model.Pes Model.Ebp Model.Scte Model.ScteEnc Model.IO Model.PacketWriter Model.Bufio Model.Accumulator
+  Model.SegDesc Model.State Model.Printers.
+From Gots Require Proofs.PrintersTotal.
 From Gots Require Proofs.HdrTotal Proofs.AFTotal Proofs.PesTotal Proofs.PatTotal Proofs.PmtDescTotal Proofs.PmtTotal
   Proofs.ScteTotal Proofs.EbpTotal Proofs.SyncProofs Proofs.BufioRefines Proofs.AccProofs Proofs.WriterProofs
   Proofs.WriterReadFrom Spec.IOSpec Spec.AccSpecDef.
@@ -247,8 +249,12 @@ Proof. destruct r; cbn; intro H; first [reflexivity|contradiction]. Qed.
 Lemma cl_desc_value {A} (r : Res A) : PmtDescTotal.value r -> cl r = COk.
 Proof. intros [v ->]. reflexivity. Qed.
 
+Lemma cl_unit (r : Res unit) : r = Ok tt -> cl r = COk.
+Proof. intros ->. reflexivity. Qed.
 Lemma psi_accessors_ok b n : is_bytes b -> g_psi_accessors b n = COk.
-Proof. intros _. apply cl_total. apply PmtTotal.table_header_from_bytes_total. Qed.
+Proof.
+  intros _. unfold g_psi_accessors. cbv zeta. rewrite (cl_total _ (PmtTotal.table_header_from_bytes_total b)). reflexivity.
+Qed.
 
 Lemma pat_getters_ok p : pat_getters p = COk.
 Proof.
@@ -264,6 +270,7 @@ Qed.
 Lemma desc_calls_ok d : desc_calls d = COk.
 Proof.
   unfold desc_calls.
+  rewrite (cl_unit _ (PrintersTotal.desc_format_total d)), (cl_unit _ (PrintersTotal.desc_string_total d)).
   rewrite (cl_desc_value _ (PmtDescTotal.is_iframe_profile_total d)), (cl_desc_value _ (PmtDescTotal.is_dolby_atmos_total d)),
     (cl_desc_value _ (PmtDescTotal.is_dolby_vision_total d)), (cl_desc_value _ (PmtDescTotal.decode_dolby_vision_codec_total d)),
     (cl_desc_value _ (PmtDescTotal.decode_iso639_language_code_total d)), (cl_desc_value _ (PmtDescTotal.decode_iso639_audio_type_total d)),
@@ -272,13 +279,17 @@ Proof.
 Qed.
 Lemma es_calls_ok e : es_calls e = COk.
 Proof.
-  unfold es_calls. cbv zeta. rewrite (cl_desc_value _ (PmtDescTotal.max_bit_rate_total _)). cbn [andc].
+  unfold es_calls. cbv zeta. rewrite (cl_unit _ (PrintersTotal.es_string_total e)).
+  rewrite (cl_unit _ (eq_refl : Printers.stream_type_string (Pmt.stype e) = Ok tt)).
+  rewrite (cl_desc_value _ (PmtDescTotal.max_bit_rate_total _)). cbn [andc].
   apply allc_ok. exact desc_calls_ok.
 Qed.
 Lemma psi_pmt_ok b n : is_bytes b -> g_psi_pmt b n = COk.
 Proof.
   intro HB. unfold g_psi_pmt. apply on_ok_ok; [apply PmtTotal.total_iff; apply PmtTotal.new_pmt_total; exact HB|].
-  intros p _. apply allc_ok. exact es_calls_ok.
+  intros p _. rewrite (cl_unit _ (PrintersTotal.pmt_string_total p)). rewrite (allc_ok _ _ es_calls_ok). cbv zeta.
+  rewrite (cl_unit _ (PrintersTotal.pmt_string_total _)). cbn [andc].
+  destruct (Pmt.pids p); [reflexivity|]. apply cl_unit. apply PrintersTotal.pmt_string_total.
 Qed.
 Lemma psi_done_ok b n : is_bytes b -> g_psi_done b n = COk.
 Proof. intro HB. apply cl_total. apply PmtTotal.done_func_total. exact HB. Qed.
@@ -314,12 +325,18 @@ Proof.
   - constructor; [exact I|constructor].
 Qed.
 Lemma psi_readpmt_ok b n : is_bytes b -> g_psi_readpmt b n = COk.
-Proof. intro HB. apply cl_total. apply PmtTotal.read_pmt_total. exact HB. Qed.
+Proof.
+  intro HB. unfold g_psi_readpmt. apply on_ok_ok; [apply PmtTotal.total_iff; apply PmtTotal.read_pmt_total; exact HB|].
+  intros p _. apply cl_unit. apply PrintersTotal.pmt_string_total.
+Qed.
 
 (* ------------------------------------------------------------------ pes / ebp *)
 Lemma pes_new_ok b n : is_bytes b -> g_pes_new b n = COk.
 Proof.
-  intros _. unfold g_pes_new. rewrite (cl_ok _ (PesTotal.new_pes_header_no_panic b)). cbn [andc].
+  intros _. unfold g_pes_new.
+  rewrite (on_ok_ok (Pes.new_pes_header b) _ (PesTotal.new_pes_header_no_panic b))
+    by (intros h _; rewrite (cl_unit _ (PrintersTotal.pes_fmt_v_total h)), (cl_unit _ (PrintersTotal.pes_format_total h)); reflexivity).
+  cbn [andc].
   destruct (N.leb_spec 5 (len b)) as [G|G]; [|reflexivity].
   destruct (PesTotal.extract_time_panics_iff b) as (_ & [P _] & _).
   destruct (Pes.extract_time b) as [v|e| |] eqn:E; try reflexivity.
@@ -328,7 +345,9 @@ Proof.
     repeat match type of E with bind (match ?r with _ => _ end) _ = _ => destruct r; cbn [bind] in E; try discriminate E end.
 Qed.
 Lemma ebp_read_ok b n : is_bytes b -> g_ebp_read b n = COk.
-Proof. intros _. apply cl_ok. apply EbpTotal.read_ebp_guarded_total. Qed.
+Proof.
+  intros _. unfold g_ebp_read. apply on_ok_ok; [apply EbpTotal.read_ebp_guarded_total|]. intros fe _. reflexivity.
+Qed.
 
 (* ------------------------------------------------------------------ scte35 *)
 Lemma map_w8_bytes l : is_bytes (map w8 l).
@@ -337,7 +356,15 @@ Lemma scte_new_ok b n : is_bytes b -> g_scte_new b n = COk.
 Proof.
   intro HB. unfold g_scte_new.
   apply on_ok_ok; [apply ScteTotal.fine_spec; apply ScteTotal.new_scte35_total; exact HB|].
-  intros s _. apply cl_fine. apply ScteTotal.new_scte35_total. constructor; [unfold is_byte; lia|apply map_w8_bytes].
+  intros s _. rewrite (cl_unit _ (PrintersTotal.scte_string_total s)). cbv zeta.
+  rewrite allc_ok.
+  2:{ intro d. unfold seg_calls. destruct (PrintersTotal.stream_switch_signal_id_total d) as [o ->].
+      rewrite (cl_unit _ (PrintersTotal.seg_mid_total d)), (cl_unit _ (PrintersTotal.seg_components_total d)). reflexivity. }
+  rewrite (cl_unit _ (PrintersTotal.tracker_calls_total _)).
+  match goal with |- context [Scte.new_scte35 (0 :: ?l)] =>
+    assert (HB' : is_bytes (0 :: l)) by (constructor; [unfold is_byte; lia|apply map_w8_bytes]) end.
+  rewrite (cl_fine _ (ScteTotal.new_scte35_total _ HB')).
+  reflexivity.
 Qed.
 
 (* ------------------------------------------------------------------ streams *)
